@@ -38,7 +38,7 @@ def tla(v):
 DEFAULTS = dict(
     IRs=set(), Modules=set(), Sections=set(), Intervals=set(), CodeBlocks=set(), DataBlocks=set(),
     Proxies=set(), Symbols=set(), Exprs=set(), ExprSym={},
-    Addrs=set(), ISizes={0}, Offs={0}, BSizes={0}, Names={"a"}, Pays=set(), Labels={"nolabel"},
+    Addrs=set(), ISizes={0}, Offs={0}, BSizes={0}, Names={"a"}, Name0="a", Pays=set(), Labels={"nolabel"},
     Tags=set(), ByteVals={0, 1}, MaxBytes=0, Families=set(), ArgMax=2, ListIdx=set(),
     Attach0=[], LazyK=3, Queries=set(), EmitKeys={"mods", "kids", "par", "cache"},
 )
@@ -106,6 +106,135 @@ CONFIGS["TreeQ"] = dict(
 )
 
 
+GEOM_KEYS = TREE_KEYS | {"addr", "isz", "off", "bsz", "baddr"}
+CHAIN = [("m1", "i1"), ("s1", "m1")]
+
+# --- geometry: attribute edits and moves that the interval indexes must follow (C05 C06 C12)
+CONFIGS["GeomB1"] = dict(   # one interval, two blocks: offsets, sizes, address, membership
+    IRs={"i1"}, Modules={"m1"}, Sections={"s1"}, Intervals={"v1"}, CodeBlocks={"c1"}, DataBlocks={"d1"},
+    Addrs={0, 3}, ISizes={0, 4}, Offs={0, 2}, BSizes={0, 3},
+    Families={"geom", ("parent", "blk")}, Attach0=CHAIN + [("v1", "s1")], EmitKeys=set(GEOM_KEYS))
+CONFIGS["GeomB2"] = dict(   # two intervals sharing addresses, one block moving between them
+    IRs={"i1"}, Modules={"m1"}, Sections={"s1"}, Intervals={"v1", "v2"}, CodeBlocks={"c1"}, DataBlocks=set(),
+    Addrs={0, 2}, ISizes={3}, Offs={0, 2}, BSizes={0, 3},
+    Families={"geom", ("parent", "blk"), ("set", "blk")}, ArgMax=1,
+    Attach0=CHAIN + [("v1", "s1"), ("v2", "s1")], EmitKeys=set(GEOM_KEYS))
+CONFIGS["GeomB2T"] = dict(  # thorough: the same with a second block (374 400 transitions)
+    IRs={"i1"}, Modules={"m1"}, Sections={"s1"}, Intervals={"v1", "v2"}, CodeBlocks={"c1"}, DataBlocks={"d1"},
+    Addrs={0, 2}, ISizes={3}, Offs={0, 2}, BSizes={0, 3},
+    Families={"geom", ("parent", "blk"), ("set", "blk")}, ArgMax=1,
+    Attach0=CHAIN + [("v1", "s1"), ("v2", "s1"), ("d1", "v2")], EmitKeys=set(GEOM_KEYS))
+CONFIGS["GeomI"] = dict(    # intervals in two sections: address to/from None, size, moves, removal
+    IRs={"i1"}, Modules={"m1"}, Sections={"s1", "s2"}, Intervals={"v1", "v2"}, CodeBlocks={"c1"},
+    Addrs={0, 3}, ISizes={0, 4}, Offs={0}, BSizes={0},
+    Families={"geom.iv", ("parent", "biv")}, Attach0=CHAIN + [("s2", "m1"), ("c1", "v1")],
+    EmitKeys=set(GEOM_KEYS))
+CONFIGS["GeomSim"] = dict(  # the composed model, too large to enumerate: simulated
+    IRs={"i1", "i2"}, Modules={"m1", "m2"}, Sections={"s1", "s2"}, Intervals={"v1", "v2", "v3"},
+    CodeBlocks={"c1", "c2"}, DataBlocks={"d1", "d2"},
+    Addrs={0, 2, 5}, ISizes={0, 1, 4, 7}, Offs={0, 1, 3, 6}, BSizes={0, 1, 2, 5},
+    Families={"geom", "parent", "set", "list", "reload"}, ArgMax=2, ListIdx={0, 1},
+    Attach0=[("m1", "i1"), ("m2", "i1"), ("s1", "m1"), ("s2", "m2"), ("v1", "s1"), ("v2", "s1"), ("v3", "s2"),
+             ("c1", "v1"), ("d1", "v1"), ("c2", "v2"), ("d2", "v3")],
+    EmitKeys=set(GEOM_KEYS))
+
+
+LAZY_KEYS = {"mods", "kids", "par", "addr", "isz", "off", "bsz", "built", "nev"}
+LQ = {(0, 2, 1), (3, 4, 1), (1, 7, 2)}
+# --- deferred index maintenance (C12): Lookup actions interleaved with edits; the spec tracks, per
+#     lazy index, "materialised?" and the number of pending events (saturating at LazyK), so that TLC
+#     distinguishes -- and the walk visits -- every placement of lookups among edits.
+CONFIGS["LazyI"] = dict(    # section index: 2 intervals
+    IRs={"i1"}, Modules={"m1"}, Sections={"s1"}, Intervals={"v1", "v2"},
+    Addrs={1}, ISizes={2}, Families={"geom.iv", ("parent", "biv"), "lookup", "lazy"},
+    Queries={(0, 2, 1), (2, 4, 1)}, LazyK=3, Attach0=CHAIN, EmitKeys=set(LAZY_KEYS))
+CONFIGS["LazyIQ"] = dict(CONFIGS["LazyI"], Queries={(1, 3, 1)})
+CONFIGS["LazyIT"] = dict(CONFIGS["LazyI"] if False else dict(
+    IRs={"i1"}, Modules={"m1"}, Sections={"s1"}, Intervals={"v1", "v2"},
+    Addrs={0, 3}, ISizes={2}, Families={"geom.iv", ("parent", "biv"), "lookup", "lazy"},
+    Queries=LQ, LazyK=3, Attach0=CHAIN, EmitKeys=set(LAZY_KEYS)))
+CONFIGS["LazyB"] = dict(    # interval index: 2 blocks
+    IRs={"i1"}, Modules={"m1"}, Sections={"s1"}, Intervals={"v1"}, CodeBlocks={"c1"}, DataBlocks={"d1"},
+    Addrs={0}, ISizes={4}, Offs={0, 2}, BSizes={2}, Families={"geom.bk", ("parent", "blk"), "lookup", "lazy"},
+    Queries={(0, 2, 1), (2, 5, 1)}, LazyK=3, Attach0=CHAIN + [("v1", "s1")], EmitKeys=set(LAZY_KEYS))
+CONFIGS["LazySim"] = dict(CONFIGS["GeomSim"], Families={"geom", "parent", "set", "lookup", "lazy", "reload"},
+                          Queries={(0, 3, 1), (2, 9, 1), (1, 12, 2), (5, 6, 1)}, LazyK=5,
+                          EmitKeys=set(LAZY_KEYS))
+
+
+SYM_KEYS = {"mods", "kids", "par", "cache", "sname", "pay", "named", "refs", "modof"}
+SYM_ATTACH = [("m1", "i1"), ("s1", "m1"), ("v1", "s1"), ("c1", "v1"), ("p1", "m1")]
+# --- symbols: name / payload edits, symbol and block moves between two modules (C10)
+CONFIGS["Sym1"] = dict(     # one symbol, every payload class, referents moving between modules
+    IRs={"i1"}, Modules={"m1", "m2"}, Sections={"s1"}, Intervals={"v1"}, CodeBlocks={"c1"}, Proxies={"p1"},
+    Symbols={"y1"}, Names={"a", "b", "EMPTY"}, Pays={"#0", "#7"},
+    Families={"sym", ("parent", "sym"), ("parent", "sec"), ("parent", "prx"), ("set", "sym")}, ArgMax=1,
+    Attach0=SYM_ATTACH, EmitKeys=set(SYM_KEYS))
+CONFIGS["Sym2"] = dict(     # two symbols sharing names and referents
+    IRs={"i1"}, Modules={"m1", "m2"}, Sections={"s1"}, Intervals={"v1"}, CodeBlocks={"c1"}, Proxies=set(),
+    Symbols={"y1", "y2"}, Names={"a", "EMPTY"}, Pays={"#0"},
+    Families={"sym", ("parent", "sym"), ("parent", "sec")},
+    Attach0=[a for a in SYM_ATTACH if a[0] != "p1"], EmitKeys=set(SYM_KEYS))
+CONFIGS["SymT"] = dict(     # thorough, model checking only: 3 symbols, all payload classes
+    IRs={"i1"}, Modules={"m1", "m2"}, Sections={"s1"}, Intervals={"v1"}, CodeBlocks={"c1"}, Proxies={"p1"},
+    Symbols={"y1", "y2", "y3"}, Names={"a", "EMPTY"}, Pays={"#0"},
+    Families={"sym", ("parent", "sym"), ("parent", "sec"), ("parent", "prx")},
+    Attach0=SYM_ATTACH, EmitKeys=set(SYM_KEYS))
+
+CONFIGS["SymSim"] = dict(   # composed, simulated
+    IRs={"i1", "i2"}, Modules={"m1", "m2", "m3"}, Sections={"s1", "s2"}, Intervals={"v1", "v2"},
+    CodeBlocks={"c1", "c2"}, DataBlocks={"d1"}, Proxies={"p1", "p2"}, Symbols={"y1", "y2", "y3", "y4"},
+    Names={"a", "b", "EMPTY", "NONASCII"}, Pays={"#0", "#7"},
+    Families={"sym", "parent", "set", "list", "reload"}, ArgMax=2, ListIdx={0, 1},
+    Attach0=[("m1", "i1"), ("m2", "i1"), ("m3", "i2"), ("s1", "m1"), ("s2", "m2"), ("v1", "s1"), ("v2", "s2"),
+             ("c1", "v1"), ("d1", "v1"), ("c2", "v2"), ("p1", "m1"), ("p2", "m3"), ("y1", "m1"), ("y2", "m1"),
+             ("y3", "m2")],
+    EmitKeys=set(SYM_KEYS))
+
+CFG_KEYS = {"mods", "kids", "par", "cfg", "outs", "ins", "nout", "nin"}
+# --- CFG as a set of labelled edges (C11)
+CONFIGS["Cfg1"] = dict(     # 2 nodes (attached block, detached proxy), absent label vs all-false label
+    IRs={"i1"}, Modules={"m1"}, Sections={"s1"}, Intervals={"v1"}, CodeBlocks={"c1"}, Proxies={"p1"},
+    Labels={"nolabel", "f"}, Families={"cfg"}, ArgMax=2,
+    Attach0=[("m1", "i1"), ("s1", "m1"), ("v1", "s1"), ("c1", "v1")], EmitKeys=set(CFG_KEYS))
+CONFIGS["Cfg2"] = dict(     # 3 nodes incl. self loops, one label
+    IRs={"i1"}, Modules={"m1"}, Sections={"s1"}, Intervals={"v1"}, CodeBlocks={"c1"}, Proxies={"p1", "p2"},
+    Labels={"L1"}, Families={"cfg"}, ArgMax=1,
+    Attach0=[("m1", "i1"), ("s1", "m1"), ("v1", "s1"), ("c1", "v1"), ("p1", "m1")], EmitKeys=set(CFG_KEYS))
+CONFIGS["CfgMove"] = dict(  # two IRs; a proxy moves, so its own adjacency follows its current IR
+    IRs={"i1", "i2"}, Modules={"m1", "m2"}, Sections={"s1"}, Intervals={"v1"}, CodeBlocks={"c1"}, Proxies={"p1"},
+    Labels={"L1"}, Families={"cfg", ("parent", "prx")}, ArgMax=0,
+    Attach0=[("m1", "i1"), ("m2", "i2"), ("s1", "m1"), ("v1", "s1"), ("c1", "v1"), ("p1", "m1")],
+    EmitKeys=set(CFG_KEYS))
+CONFIGS["CfgT"] = dict(CONFIGS["Cfg1"], Labels={"nolabel", "f", "L1"})
+
+BYTE_KEYS = {"mods", "kids", "par", "addr", "isz", "off", "bsz", "bytes", "baddr", "bbytes"}
+# --- stored bytes and block views (C19)
+CONFIGS["Bytes"] = dict(
+    IRs={"i1"}, Modules={"m1"}, Sections={"s1"}, Intervals={"v1"}, CodeBlocks={"c1"},
+    Addrs={5}, ISizes={0, 1, 2, 3}, Offs={0, 1, 2}, BSizes={0, 1, 3}, ByteVals={0, 7}, MaxBytes=3,
+    Families={"geom", "bytes", "reload"}, Attach0=[("m1", "i1"), ("s1", "m1"), ("v1", "s1"), ("c1", "v1")],
+    EmitKeys=set(BYTE_KEYS))
+CONFIGS["BytesQ"] = dict(CONFIGS["Bytes"], ISizes={0, 2, 3}, Offs={0, 2}, BSizes={0, 3}, ByteVals={7}, MaxBytes=3)
+
+SYMX_KEYS = {"mods", "kids", "par", "addr", "isz", "symx", "tags"}
+# --- symbolic_expressions: the MutableMapping interface (C16) and lookups by address (C13)
+CONFIGS["SymX"] = dict(
+    IRs={"i1"}, Modules={"m1"}, Sections={"s1"}, Intervals={"v1"}, Symbols={"y1"}, Exprs={"e1", "e2"},
+    ExprSym={"e1": "y1", "e2": "y1"}, Addrs={2}, ISizes={0, 2}, Offs={0, 1, 3}, ArgMax=2,
+    Families={"symx", "geom.iv"}, Attach0=[("m1", "i1"), ("s1", "m1"), ("v1", "s1"), ("y1", "m1")],
+    EmitKeys=set(SYMX_KEYS))
+CONFIGS["SymX2"] = dict(    # two intervals in two sections: moves and address changes under stored expressions
+    IRs={"i1"}, Modules={"m1"}, Sections={"s1", "s2"}, Intervals={"v1", "v2"}, Symbols={"y1"}, Exprs={"e1"},
+    ExprSym={"e1": "y1"}, Addrs={2}, ISizes={2}, Offs={1}, ArgMax=1,
+    Families={"symx", "geom.iv", ("parent", "biv"), "reload"},
+    Attach0=[("m1", "i1"), ("s1", "m1"), ("s2", "m1"), ("v1", "s1"), ("y1", "m1")],
+    EmitKeys=set(SYMX_KEYS))
+
+
+CONFIGS["SymX2T"] = dict(CONFIGS["SymX2"], Offs={0, 3})
+
+
 def get(name):
     c = copy.deepcopy(DEFAULTS)
     c.update(copy.deepcopy(CONFIGS[name]))
@@ -113,12 +242,13 @@ def get(name):
     return c
 
 
-def render(name, *, emit=False, invariants=None, constraints=(), consts=None, view=True):
+def render(name, *, emit=False, invariants=None, constraints=(), consts=None, view=True,
+           extends="Gtirb", spec="Spec", postcondition=None):
     """Returns (module_name, {filename: text}, cfg_text)."""
     c = consts if consts is not None else get(name)
     mod = "MC_" + name
-    lines = ["---- MODULE %s ----" % mod, "EXTENDS Gtirb"]
-    cfg = ["SPECIFICATION Spec", "CONSTANTS"]
+    lines = ["---- MODULE %s ----" % mod, "EXTENDS %s" % extends]
+    cfg = ["SPECIFICATION %s" % spec, "CONSTANTS"]
     for k in sorted(c):
         lines.append("c_%s == %s" % (k, tla(c[k])))
         cfg.append("  %s <- c_%s" % (k, k))
@@ -131,5 +261,7 @@ def render(name, *, emit=False, invariants=None, constraints=(), consts=None, vi
         cfg.append("VIEW absView")
     if emit:
         cfg.append("ACTION_CONSTRAINT Emit")
+    if postcondition:
+        cfg.append("POSTCONDITION %s" % postcondition)
     cfg.append("CHECK_DEADLOCK FALSE")
     return mod, {mod + ".tla": "\n".join(lines) + "\n"}, "\n".join(cfg) + "\n"
